@@ -66,10 +66,6 @@ type selection struct {
 type tcase struct {
 	recv    bool
 	ws      bool
-	// the application's configuration function returns, at every call, only
-	// those of its features whose declared prerequisites hold in the session's
-	// current state (in a fresh slice): the same eligible set, looked up anew
-	dynCfg bool
 	s2s     bool
 	initial xmpp.SessionState
 	feats   []feat
@@ -79,7 +75,7 @@ type tcase struct {
 
 func (tc tcase) String() string {
 	var sb strings.Builder
-	fmt.Fprintf(&sb, "recv=%v ws=%v s2s=%v initial=%v configuration-looked-up-by-state=%v", tc.recv, tc.ws, tc.s2s, tc.initial, tc.dynCfg)
+	fmt.Fprintf(&sb, "recv=%v ws=%v s2s=%v initial=%v", tc.recv, tc.ws, tc.s2s, tc.initial)
 	for _, f := range tc.feats {
 		fmt.Fprintf(&sb, "\n  %s", f)
 	}
@@ -106,7 +102,6 @@ var maskChoices = []xmpp.SessionState{0, 0, 0, xmpp.Secure, xmpp.Authn, xmpp.Sec
 
 func genCase(t *rapid.T) tcase {
 	tc := tcase{recv: rapid.Bool().Draw(t, "recv"), ws: rapid.IntRange(0, 3).Draw(t, "ws") == 0, s2s: rapid.Bool().Draw(t, "s2s")}
-	tc.dynCfg = rapid.IntRange(0, 3).Draw(t, "dynCfg") == 0
 	tc.initial = rapid.SampledFrom([]xmpp.SessionState{0, 0, xmpp.Secure, xmpp.Authn, xmpp.Secure | xmpp.Authn}).Draw(t, "initial")
 	n := rapid.IntRange(1, 5).Draw(t, "nfeats")
 	hasTLS := false
@@ -554,19 +549,8 @@ func execute(tc *tcase) outcome {
 			}
 		}
 	}
-	cfg := func(sess *xmpp.Session, _ *xmpp.StreamConfig) xmpp.StreamConfig {
-		if !tc.dynCfg || sess == nil {
-			// (NewNegotiator calls the function once without a session)
-			return xmpp.StreamConfig{Features: feats}
-		}
-		st := sess.State()
-		var now []xmpp.StreamFeature
-		for _, f := range feats {
-			if st&f.Necessary == f.Necessary && st&f.Prohibited == 0 {
-				now = append(now, f)
-			}
-		}
-		return xmpp.StreamConfig{Features: now}
+	cfg := func(*xmpp.Session, *xmpp.StreamConfig) xmpp.StreamConfig {
+		return xmpp.StreamConfig{Features: feats}
 	}
 	neg := xmpp.NewNegotiator(cfg)
 	if tc.ws {
